@@ -7,42 +7,47 @@ import core
 PROP = dict(
     id="C14",
     level="proof",
-    technique=("Lean 4 theorems over a byte-level executable model of ValidateQuery/ValidateLimit (Go's UTF-8 decoder, strings.Map, "
-               "TrimSpace, Fields modelled explicitly); constants, metacharacter class and exempted controls regenerated from the source; "
-               "Unicode tables compared with the Go toolchain over all code points; differential correspondence and an independent monitor on the real code"),
+    technique=("Lean 4 theorems over a byte-level executable model of ValidateQuery/ValidateLimit (Go's UTF-8 decoder, the sanitising loop, "
+               "TrimSpace, Fields modelled explicitly); constants, metacharacter class, exempted controls, the replacement byte and the statement-by-"
+               "statement shape of the sanitising loop regenerated from the source; Unicode tables compared with the Go toolchain over all code points; "
+               "differential correspondence and an independent monitor on the real code"),
     level_text=("Kernel-checked theorems (WtfModel/Props/C14.lean) over a hand-written model of validation.ValidateQuery and ValidateLimit, for every byte "
                 "string (well-formed or not) and every integer: acceptance is exactly `at most MaxQueryLength bytes, no metacharacter, not blank once "
-                "control characters are removed`; an accepted result has no control character, no metacharacter, no leading/trailing/adjacent white space and "
-                "at most as many characters (runes) as the input (and at most as many bytes when the input is well-formed UTF-8); leading/trailing/inner "
-                "white-space padding does not change the result; accepted limits are 1..maxLimit with 0 mapped to the default. Idempotence is proved in its "
-                "exact form (second validation returns the result unchanged iff the result is at most MaxQueryLength bytes long, which always holds for "
-                "well-formed input); the unrestricted statement is refuted on the model by a concrete witness that the check re-runs on the real code. "
-                "The model is tied to the code by regenerated constants/classes, an exhaustive comparison of the two Unicode tables with the toolchain, "
-                "systematic decoder inputs, a complete enumeration of short strings over a 16-symbol alphabet and boundary-biased random inputs."),
+                "control characters are removed`; an accepted result is well-formed UTF-8 with no control character, no metacharacter, no "
+                "leading/trailing/adjacent white space, at most as many characters (runes) and at most as many bytes as the input; validating an accepted "
+                "result returns it unchanged, unconditionally (theorem idem; the accepted results are exactly the fixed points); leading/trailing/inner "
+                "white-space padding does not change the result; accepted limits are 1..maxLimit with 0 mapped to the default. "
+                "The model is tied to the code by regenerated constants/classes, translator assertions on every statement of the sanitising loop, an "
+                "exhaustive comparison of the two Unicode tables with the toolchain, systematic decoder inputs, a complete enumeration of short strings "
+                "over a 16-symbol alphabet and boundary-biased random inputs; the input that refuted idempotence before the repair of finding K01 "
+                "(334 invalid bytes) is re-run on the real code on every run."),
     level_note=("Trusted: Lean kernel; axioms propext/Classical.choice/Quot.sound only; the translator facts (maxLimit, metacharacter class, exempted "
-                "controls, constant sites); the harness; that regexp `[class]` matching on well-formed UTF-8 text is membership of a code point in the class; "
-                "Go's strings/unicode/utf8 packages behave on inputs outside the generated ones as they do on them (the model of the decoder, Map, TrimSpace "
-                "and Fields is validated by differential runs, not derived from the library source)."),
+                "controls, replacement byte, constant sites, loop shape); the harness; that regexp `[class]` matching on well-formed UTF-8 text is membership "
+                "of a code point in the class; Go's strings/unicode/utf8 packages behave on inputs outside the generated ones as they do on them (the model of "
+                "the decoder, TrimSpace and Fields is validated by differential runs, not derived from the library source)."),
     design_ref="DESIGN.md section 6, C14",
     rule=("queries: boundary-biased random byte strings (all 25 white-space and 65 control code points in turn, metacharacters next to controls, every shape "
-          "of malformed UTF-8, byte lengths 998-1003, invalid bytes whose U+FFFD expansion brings the output to 996-1005 bytes), plus a complete enumeration of "
+          "of malformed UTF-8, control characters between the two halves of a split multi-byte sequence, byte lengths 998-1003, 300-334 invalid bytes whose "
+          "U+FFFD expansion would be 996-1005 bytes), plus a complete enumeration of "
           "strings over a 16-symbol alphabet (quick: <=3 symbols, thorough: <=4) and systematic decoder inputs; limits: boundaries and random int64. "
           "A case is non-trivial if at least one query in it was rejected or came back altered, or a limit was rejected or replaced "
           "(decoder cases: at least one invalid byte among the decoded strings; the table comparison is not counted); "
           "distinct = distinct op sequences"),
     assumptions=["'characters' in 'no more characters than it had' are runes as Go counts them (utf8.RuneCountInString: an invalid byte is one character); "
-                 "the byte length can grow for malformed input (witness theorem Wtf.C14.bytes_can_grow)",
-                 "'control characters removed' is read character-wise on the decoded text (an invalid byte is the character U+FFFD)",
+                 "the byte length does not grow either (theorem Wtf.C14.clean_bytes)",
+                 "'control characters removed' is read character-wise on the decoded text (an invalid byte is the character U+FFFD, which is neither "
+                 "blank nor a control character; the code writes it back as one '?')",
                  "Go int is 64-bit; the model's limits are unbounded integers"],
     keep_prefix={},
 )
 
 THEOREMS = ["Wtf.C14." + t for t in (
-    "gen_facts_ok", "accept_iff", "accept_iff_all_controls", "clean", "clean_bytes", "bytes_can_grow", "idem_iff", "idem_partial", "idem_fails",
+    "gen_facts_ok", "accept_iff", "accept_iff_all_controls", "clean", "clean_bytes", "result_chars", "idem", "idem_iff", "idem_old_witness",
     "pad_exact", "pad", "pad_inner", "limit", "limit_accept_iff")]
 
 ASSERTIONS = ["validate:ValidateQuery", "validate:ValidateLimit", "validate:signatures", "validate:maxLimit", "validate:limit-default-const",
-              "validate:maxlen-const", "validate:metaclass", "validate:control-strip", "constants:typecheck"]
+              "validate:maxlen-const", "validate:metaclass", "validate:strip-loop", "validate:strip-invalid", "validate:control-strip",
+              "validate:strip-copy", "validate:strip-result", "constants:typecheck"]
 
 
 def nontrivial(tags, ops, impl):
@@ -62,7 +67,7 @@ def tool(*args):
 
 
 def model_witness(ctx):
-    """Asks the Lean driver for the witness of Wtf.C14.idem_fails (hex)."""
+    """Asks the Lean driver for the input of Wtf.C14.idem_old_witness (hex): 334 invalid bytes."""
     p = subprocess.run([core.DRIVER_BIN], input="case 0 validate\nwitness\n", stdout=subprocess.PIPE, stderr=subprocess.PIPE, text=True, timeout=120)
     lines = [l for l in p.stdout.split("\n") if l and not l.startswith("case ") and not l.startswith("#")]
     return lines[0].strip() if lines else ""
@@ -102,25 +107,32 @@ def run(ctx):
 
     # 4. boundary-biased random queries and limits
     ctx.correspond("validate", 4000 if quick else 100000, nontrivial=nontrivial, sample_n=4, model=model)
-    if not model:
-        return
 
-    # 5. the witness of Wtf.C14.idem_fails, taken from the model and confirmed on the real code
-    w = model_witness(ctx)
-    ok = False
-    detail = "driver returned no witness"
-    if w:
-        mm, il, ml, hits = core.run_single_case(ctx, "validate-witness", "validate", ["qq " + w])
+    # 5. the input that refuted idempotence before the repair of K01 (334 invalid bytes; 1000 of them as well), on the real
+    #    code: accepted, and the second validation returns the first result unchanged.  Taken from the model when the
+    #    driver is there (Wtf.Validate.idemWitness), otherwise spelled out here, so that a failing input is reported
+    #    even when the Lean side does not build.
+    w = (model_witness(ctx) if model else "") or "ff" * 334
+    for name, hexq in (("validate-witness", w), ("validate-witness-1000", "ff" * 1000)):
+        r = core.Run(ctx, name)
+        r.set_ops("case 0 validate\nqq %s\n" % hexq)
+        r.exec_impl(timeout=600)
+        if model:
+            r.exec_model(timeout=600)
+        r.load()
+        mm = bool(r.diff()) if model else False
+        il, ml, hits = r.impl.get("0", []), r.model.get("0", []), r.hits
         ctx.cov["evaluations"] += 1
         classes = [h.get("class") for h in hits]
-        second_rejected = bool(il) and il[0].startswith("ok ") and il[0].endswith(" err toolong")
-        ok = (not mm) and second_rejected and "idem-invalid-utf8-expansion" in classes
-        detail = "witness %d bytes (%s..): impl=%s model=%s monitor=%s" % (len(w) // 2, w[:8], [core.pretty(l)[:60] for l in il],
+        parts = il[0].split(" ") if il else []
+        stable = len(parts) == 4 and parts[0] == "ok" and parts[2] == "ok" and parts[1] == parts[3]
+        ok = (not mm) and stable and not classes
+        detail = "%d invalid bytes (%s..): impl=%s model=%s monitor=%s" % (len(hexq) // 2, hexq[:8], [core.pretty(l)[:60] for l in il],
                                                                            [core.pretty(l)[:60] for l in ml], classes)
-        if not mm:
+        if model and not mm:
             ctx.cov["traces_validated_against_impl"] += 1
         for h in hits:
             ctx.hit(h.get("class", "?"), "%s: %s" % (h.get("class"), core.json.dumps(h.get("detail"))[:300]),
-                    dict(kind="impl-counterexample", domain="validate", seed=ctx.seed, case="witness", ops=["qq " + w],
-                         ops_pretty=["qq <%d bytes %s…>" % (len(w) // 2, w[:8])], detail=h.get("detail"), **{"class": h.get("class")}))
-    ctx.oblige("witness:Wtf.C14.idem_fails reproduced on the real code", "correspondence", ok, detail)
+                    dict(kind="impl-counterexample", domain="validate", seed=ctx.seed, case="witness", ops=["qq " + hexq],
+                         ops_pretty=["qq <%d bytes %s…>" % (len(hexq) // 2, hexq[:8])], detail=h.get("detail"), **{"class": h.get("class")}))
+        ctx.oblige("witness:%d invalid bytes are accepted and their result is a fixed point on the real code" % (len(hexq) // 2), "correspondence", ok, detail)
